@@ -67,9 +67,14 @@ def cases(tier, seed):
         out.append({"id": "field-far-%d" % i, "kind": "field", "m": _gen_m(rng, i), "x": float(loguniform(rng, 0.1, 20)), "nmed": float(rng.uniform(1.0, 1.6)),
                     "wl": float(rng.uniform(0.4, 0.8)), "opts": scat.MIE_OPTS[[0, 2, 0, 3][i % 4]], "pol_angle": float(rng.uniform(0, 2 * math.pi)),
                     "pol_norm": 1.0, "near": False, "veryfar": True, "seed": [seed, "fieldfar", i], "cost": 2,
-                    # beyond k r = 2e4 only the asymptotic, radial-free form is computable (the Fortran code says so on stdout); what the
-                    # other option sets return there is judged by the value oracle under its own mechanism name
-                    "allow_events": [] if [0, 2, 0, 3][i % 4] == 3 else ["contract.calc_field.nonfinite"]})
+                    # (before repair e839fc7 only the asymptotic, radial-free form was computable beyond k r = 2e4: F62)
+                    })
+    # distances where the spherical Bessel routine is at its weakest: (a) k r on a zero of j_1 whose j_0 is negative (4.4934.., 10.904.., ...:
+    # F70), (b) k r between 1e4 and 2e4, where its continued fraction needed ~k r steps and lost up to eight digits (F71)
+    for i in range(16 if tier == "quick" else 400):
+        out.append({"id": "field-bessel-%d" % i, "kind": "field", "m": _gen_m(rng, i), "x": float(loguniform(rng, 0.1, 3.5)), "nmed": float(rng.uniform(1.0, 1.6)),
+                    "wl": float(rng.uniform(0.4, 0.8)), "opts": scat.MIE_OPTS[[0, 2, 0, 1][i % 4]], "pol_angle": float(rng.uniform(0, 2 * math.pi)),
+                    "pol_norm": 1.0, "near": False, "bessel": ["j1zero", "midfar"][i % 2], "seed": [seed, "fieldbessel", i], "cost": 2})
     nm = 60 if tier == "quick" else 2500
     for i in range(nm):
         x = float(loguniform(rng, 0.05, 18))
@@ -80,6 +85,11 @@ def cases(tier, seed):
     for i, xx in enumerate([30.0, 40.0] if tier == "quick" else [26.0, 30.0, 40.0, 60.0, 100.0]):
         out.append({"id": "ms1-large-%d" % i, "kind": "ms1", "m": [1.2, 0.0], "x": xx, "nmed": 1.0, "wl": 0.6, "meth": 1, "tight": True, "as_cluster": True,
                     "pol_angle": 0.4, "seed": [seed, "ms1large", i], "cost": 40})
+    # layered spheres one of whose layer boundaries puts m_l x_l next to a zero of a Riccati-Bessel function psi_n (where the product
+    # recursion for psi_n xi_n used to lose digits for all higher orders, F69), judged against the arbitrary-precision series
+    for i in range(12 if tier == "quick" else 300):
+        out.append({"id": "layacc-%d" % i, "kind": "layacc", "nlayers": 2 + i % 3, "order": 1 + i % 5, "delta": [1e-5, 1e-7, 1e-6, 1e-9][i % 4] * (-1) ** (i // 4),
+                    "seed": [seed, "layacc", i], "cost": 6})
     nl = 100 if tier == "quick" else 5000
     for i in range(nl):
         xr = ["mid", "mid", "small", "mid", "large", "mid"][(i // 5) % 6]
@@ -170,7 +180,17 @@ def _run_field(case):
         dist = loguniform(rng, 2.5e4, 1e6, n) / k
     else:
         dist = r * 1.05 + loguniform(rng, 0.5, 500, n) / k * 10
+    if case.get("bessel") == "j1zero":
+        from scipy.optimize import brentq
+        from scipy.special import spherical_jn
+        zeros = [brentq(lambda t: spherical_jn(1, t), (q + 0.5) * math.pi - 1.2, (q + 0.5) * math.pi + 0.3) for q in range(1, 9)]    # tan t = t
+        zeros = [z for z in zeros if z > x * 1.05]
+        dist = np.array([zeros[j % len(zeros)] * (1 + [0.0, 1e-12, -1e-9, 1e-6, -1e-4, 1e-15][j % 6]) for j in range(n)]) / k
+    elif case.get("bessel") == "midfar":
+        dist = loguniform(rng, 8e3, 1.97e4, n) / k
     u = rng.normal(size=(n, 3)); u /= np.linalg.norm(u, axis=1, keepdims=True)
+    if case.get("bessel") == "j1zero":
+        c = np.zeros(3)      # the distance is then exactly the one chosen
     if case.get("rays") and not case.get("veryfar"):
         # four rays of four points (distance doubling, so the direction is bit-identical) and eight points on the axis through the
         # particle, in front of and behind it; the particle sits at the origin for the rays to stay exact
@@ -200,7 +220,18 @@ def _run_field(case):
     ref = fn(me, xe)
     cond = _cond(fn, me, xe, ref)
     sc = max(float(np.abs(ref).max()), 1e-300)
-    resid = {"field_xyz": fnum(float(np.abs(f - ref.T).max()) / sc)}
+    # points beyond k r ~ 1.98e4 are reported separately (there the Fortran Bessel routine used to give up, F62 / repair e839fc7)
+    beyond = kr > 1.98e4
+    resid = {}
+    # each point is judged against the field amplitude at ITS distance (the field falls off as 1/r: an error that is small next to
+    # the nearest point's field can be the whole field of a far one); the floor is a hundredth of the 1/r envelope, for points in a minimum
+    amp = np.abs(ref).max(axis=0)
+    env = float((amp * kr).max()) / kr
+    err = np.abs(f - ref.T).max(axis=1) / np.maximum(amp, 1e-2 * env)
+    if (~beyond).any():
+        resid["field_xyz"] = fnum(float(err[~beyond].max()))
+    if beyond.any():
+        resid["field_xyz@beyond"] = fnum(float(err[beyond].max()))
     return {"resid": resid, "flags": {}, "cond": fnum(cond), "x": xe, "krmax": float(kr.max()), "full_radial": bool(opts.get("full_radial_dependence", True)), "radial": bool(opts.get("compute_escat_radial", True))}
 
 
@@ -235,6 +266,33 @@ def _run_ms1(case):
     ss = calc_scat_matrix(pts, target, nmed, wl, theory=ms)
     resid["ms1_smat_" + key] = relmax(ss, sm)
     return {"resid": resid, "flags": {}, "cond": 0.0, "x": float(k * r)}
+
+
+def _run_layacc(case):
+    from scipy.optimize import brentq
+    from scipy.special import spherical_jn
+    from holopy.scattering import Sphere, Mie
+    from vf import refmp
+    rng = rng_for(*case["seed"])
+    nl, n0 = case["nlayers"], case["order"]
+    # zeros of psi_n0 between 3 and 14
+    grid = np.linspace(3.0, 14.0, 2000)
+    v = spherical_jn(n0, grid)
+    zs = [brentq(lambda t: spherical_jn(n0, t), grid[j], grid[j + 1]) for j in range(len(grid) - 1) if v[j] * v[j + 1] < 0]
+    z0 = zs[int(rng.integers(0, len(zs)))]
+    ms = [float(rng.uniform(1.05, 2.0)) for _ in range(nl)]
+    j = int(rng.integers(0, nl))                       # the layer whose outer boundary sits on the zero
+    xj = z0 * (1 + case["delta"]) / ms[j]
+    xs = sorted([xj] + [float(xj * f) for f in (list(rng.uniform(0.3, 0.9, j)) + list(rng.uniform(1.1, 1.8, nl - 1 - j)))])
+    nmed, wl = float(rng.uniform(1.0, 1.5)), float(rng.uniform(0.4, 0.8))
+    k = 2 * math.pi * nmed / wl
+    s = Sphere(n=tuple(m * nmed for m in ms), r=tuple(x / k for x in xs), center=(0, 0, 5))
+    co = Mie()._scat_coeffs(s, k, nmed)
+    xs_seen = [k * (x / k) for x in xs]                 # the size parameters as the library computes them
+    ms_seen = [(m * nmed) / nmed for m in ms]
+    an, bn = refmp.coeffs(ms_seen, xs_seen, nmax=co.shape[1], dps=80)
+    ref = np.array([an, bn])
+    return {"resid": {"layered_coeffs_vs_mp": fnum(float(np.abs(co - ref).max()))}, "flags": {}, "cond": 0.0, "x": float(xs[-1]), "orders": [int(co.shape[1])]}
 
 
 def _run_layered(case):
@@ -290,20 +348,33 @@ def _run_layered(case):
     cb = calc_cross_sections(b, o["medium_index"], o["illum_wavelen"], pol, theory=Mie()).values
     resid["layered_xsec"] = fnum(max(float(np.abs(ca[:3] - cb[:3]).max() / np.abs(cb[2])), float(abs(ca[3] - cb[3]))))
     flags = {"layered_absorption_nonnegative": bool(ca[1] >= -1e-10 * ca[2] and cb[1] >= -1e-10 * cb[2])}
-    return {"resid": resid, "flags": flags, "cond": 0.0, "x": float(xs[-1])}
+    # the series coefficients themselves (hooked state: what Mie hands to the Fortran field code). Over the orders both spheres sum they
+    # must agree to rounding; a sphere with a larger outer radius sums more orders (Wiscombe's cut follows the outer radius), and what
+    # those extra orders hold is the truncation error of the smaller sphere's series -- the accuracy both field calculations can have
+    th_ = Mie()
+    coa, cob = th_._scat_coeffs(a, k, o["medium_index"]), th_._scat_coeffs(b, k, o["medium_index"])
+    nc = min(coa.shape[1], cob.shape[1])
+    resid["layered_coeffs"] = fnum(float(np.abs(coa[:, :nc] - cob[:, :nc]).max()))
+    longer = coa if coa.shape[1] > nc else cob
+    tail = float(np.abs(longer[:, nc:]).max()) if longer.shape[1] > nc else 0.0
+    return {"resid": resid, "flags": flags, "cond": 0.0, "x": float(xs[-1]), "tail": fnum(tail), "orders": [int(coa.shape[1]), int(cob.shape[1])]}
 
 
 # ------------------------------------------------------------------ oracle
 
 TOL = {"S1": 1e-9, "S2": 1e-9, "offdiag": 1e-12, "pymie": 1e-6, "pymie_vs_fortran": 1e-6, "field_xyz": 1e-7,
-       "ms1_field_tight": 1e-5, "ms1_smat_tight": 1e-5, "layered_field": 2e-9, "layered_smat": 2e-9, "layered_xsec": 2e-9}
+       "ms1_field_tight": 1e-5, "ms1_smat_tight": 1e-5, "layered_field": 2e-9, "layered_smat": 2e-9, "layered_xsec": 2e-9, "layered_coeffs": 1e-10, "layered_coeffs_vs_mp": 5e-12}
 
 
 def _tol(k, obs):
     if k in ("ms1_field_default", "ms1_smat_default"):
         return 1e-2      # default truncation tolerance qeps1=1e-5 acts on efficiencies (quadratic): amplitudes good to ~3*sqrt(qeps1)
+    if k in ("layered_coeffs", "layered_coeffs_vs_mp"):
+        return TOL[k]
     if k.startswith("layered_"):
-        return TOL[k] * max(1.0, obs.get("x", 1.0) / 10.0)     # rounding in the recurrences grows with the number of orders ~ x
+        # rounding in the recurrences grows with the number of orders ~ x; where the two spheres sum different numbers of orders, the
+        # first neglected coefficients of the shorter series (measured, see the child) bound what the two results can share
+        return TOL[k] * max(1.0, obs.get("x", 1.0) / 10.0) + 10.0 * min(obs.get("tail", 0.0), 1e-5)
     return TOL[k]
 
 
@@ -311,13 +382,17 @@ def judge(case, obs):
     out = []
     desc = {k: case[k] for k in case if k not in ("seed", "id", "cost")}
     for k, v in obs["resid"].items():
+        where = k.split("@")[1] if "@" in k else ""
+        k = k.split("@")[0]
         t = _tol(k, obs)
         if k in ("S1", "S2", "pymie", "field_xyz") and obs["cond"] > t / 10:
             continue    # reference is ill-conditioned here: recognised, not tolerated, not counted as held
         if not v <= t:
             regime = ""
-            if case["kind"] == "field" and obs.get("krmax", 0) > 2e4 and (obs.get("full_radial") or obs.get("radial")):
-                regime = ".kr_gt_2e4_hankel_needed"
+            if case["kind"] == "field" and where == "beyond":
+                regime = ".beyond_kr_2e4"
+            if case["kind"] == "field" and case.get("bessel"):
+                regime += "." + case["bessel"]
             if case["kind"] == "ms1" and obs.get("x", 0) > 25:
                 regime = ".sphere_beyond_order_32"
             if case["kind"] == "layered" and obs.get("x", 1.0) < 0.1:
